@@ -112,3 +112,22 @@ def r4(ctx, R):
     got = sorted(c.describe() for c in N.contribs if c.target.startswith('delta['))
     want = sorted(['delta[0] = +self.nodes[0] -self.tleft', 'delta[m] = +self.nodes[m] -self.nodes[m - 1] for m in np.arange(1, self.num_nodes)'])
     R.check(got == want, '_gen_deltas :: first distance from tleft, the others between consecutive nodes, for all nodes', w, want, got)
+
+
+@rule('C05', 'C05.R5', 'preconditioner matrices are built for the SAME interval as Q: the QDelta generator gets the collocation generator and the left end of its interval (node distances are measured from tleft, not from 0)', floor=1)
+def r5(ctx, R):
+    repo = ctx.repo
+    rel = 'pySDC/core/sweeper.py'
+    fn = repo.func(rel, 'Sweeper.buildGenerator')
+    w = f'{rel}:Sweeper.buildGenerator'
+    R.fn(w)
+    calls = [s.value for s in ast.walk(fn) if isinstance(s, ast.Return) and isinstance(s.value, ast.Call)]
+    kw = [{k.arg: ast.unparse(k.value) for k in c.keywords} for c in calls]
+    ok = len(calls) == 1 and kw[0].get('qGen') == 'self.coll.generator' and kw[0].get('tLeft') == 'self.coll.tleft'
+    R.check(ok, 'Sweeper.buildGenerator :: generator(qGen=self.coll.generator, tLeft=self.coll.tleft)', w, 'both the nodes (through the collocation generator) and the left end of the interval are handed over', kw)
+
+
+@rule('C05', 'C05.R6', 'matrices the second-order sweepers derive from the collocation object (QT, Qx, QQ, qQ and the Lobatto IIIA/IIIB special case) are defined as the formulas say (shared with C02.R9)', floor=4)
+def r6(ctx, R):
+    from . import c02
+    c02.r9(ctx, R)
